@@ -156,6 +156,14 @@ def run(ctx):
 
     with ctx.obligation("C13.4", "the divisor counts the same edge set the accumulation visits") as o:
         f = prog.method(ci, "count_edge_types")
+        # the table itself: every edge adds exactly 1, starting from 0, under its own topology name
+        from gcmstatic.conform import conform_attr as _conform_attr
+        _conform_attr(o, f, "_num_edges", ['''
+def count_edge_types(self):
+    self._num_edges = {}
+    for e in self._G.edges():
+        self._num_edges[self._G.edges[e][NetworkNames.TOPOLOGY]] = self._num_edges.get(self._G.edges[e][NetworkNames.TOPOLOGY], 0) + 1
+'''], "count_edge_types: edges per topology")
         # compare the dictionary built in self._num_edges
         from gcmstatic.funterm import FunTerm
         ft = FunTerm()
@@ -254,6 +262,40 @@ def run(ctx):
                     o.holds(f, st_[0], f"stored under the topology's own name `{name}`")
                 elif st_:
                     o.violated(f, st_[0], f"keys of topology {name} stored under `{txt(st_[0].targets[0].slice)}`")
+                elif not any(isinstance(n_, ast.Attribute) and isinstance(n_.ctx, ast.Store) and n_.attr == "_excess_degree_keys" for n_ in astx.walk_fn(f.node)) \
+                        and not any(isinstance(n_, ast.Call) and isinstance(n_.func, ast.Attribute) and n_.func.attr in ("update", "setdefault") and txt(n_.func.value) == "self._excess_degree_keys" for n_ in astx.walk_fn(f.node)):
+                    o.violated(f, outer[0], f"the excess keys of topology {name} are computed but never stored in self._excess_degree_keys: every consumer sees an empty key list")
+                # the decremented key has to be collected
+                colls = [n_ for n_ in ast.walk(inner[0]) if isinstance(n_, ast.Call) and isinstance(n_.func, ast.Attribute) and n_.func.attr in ("append", "add")]
+                comp_form = any(isinstance(n_, (ast.ListComp, ast.SetComp, ast.GeneratorExp)) for s_ in outer[0].body for n_ in ast.walk(s_))
+                if not colls and not comp_form and ok_guard:
+                    o.violated(f, inner[0], "the decremented joint degree is never collected (no append / add in the loop): the key lists stay empty")
+        # the keys are computed when the object is built, from every vertex, and handed to the matrices object
+        init_ = prog.method(ci, "__init__")
+        ge_ = prog.method(ci, "get_ejks")
+        if init_ is not None:
+            calls_ = [n_ for n_ in astx.walk_fn(init_.node) if isinstance(n_, ast.Call) and txt(n_.func) == "self.resolve_excess_degree_keys"]
+            dk_ = [n_ for n_ in astx.walk_fn(init_.node) if isinstance(n_, ast.Assign) and any(astx.self_attr(t_) == "_degree_keys" for t_ in n_.targets)
+                   and any(isinstance(x_, (ast.ListComp, ast.SetComp, ast.GeneratorExp, ast.For)) for x_ in ast.walk(n_.value))]
+            lazily_ = any(isinstance(n_, ast.Call) and txt(n_.func) == "self.resolve_excess_degree_keys" for m_ in ci.methods.values() if m_ is not init_ for n_ in astx.walk_fn(m_.node))
+            if calls_:
+                o.holds(init_, calls_[0], "the constructor resolves the excess degree keys")
+            elif lazily_:
+                o.undecided("resolve_excess_degree_keys is not called by the constructor but elsewhere: whether every consumer sees the keys is not recognised", init_)
+            else:
+                o.violated(init_, init_.node, "nothing calls resolve_excess_degree_keys(): self._excess_degree_keys stays empty, the matrices carry no keys")
+            if not dk_ and not any(isinstance(n_, ast.For) and any(astx.self_attr(getattr(c_.func, "value", None)) == "_degree_keys" for c_ in ast.walk(n_) if isinstance(c_, ast.Call) and isinstance(c_.func, ast.Attribute))
+                                   for n_ in astx.walk_fn(init_.node)):
+                o.violated(init_, init_.node, "self._degree_keys is never computed from the vertices' joint degrees: there is nothing to derive excess keys from")
+        if ge_ is not None:
+            for fld_, src_ in (("excess_degree_keys", "_excess_degree_keys"), ("topology_names", "_topology_names")):
+                handed = any(isinstance(n_, ast.Assign) and any(isinstance(t_, ast.Attribute) and t_.attr.lstrip("_") == fld_ and astx.self_attr(t_.value) == "_ejks" for t_ in n_.targets)
+                             for n_ in astx.walk_fn(ge_.node)) or \
+                    any(isinstance(n_, ast.Call) and txt(n_.func).split(".")[-1] == "JointExcessJointDegreeMatrices" and (n_.args or n_.keywords) for n_ in astx.walk_fn(ge_.node))
+                if handed:
+                    o.holds(ge_, ge_.node, f"get_ejks hands {fld_} to the matrices object")
+                else:
+                    o.violated(ge_, ge_.node, f"get_ejks no longer hands `{fld_}` (self.{src_}) to the matrices object it returns: consumers of the matrices (key views, degree-distribution algebra) find none")
 
     with ctx.obligation("C13.6", "overall-degree variant: (deg(u)-1, deg(v)-1) and its mirror, 1/(2E) each") as o:
         f = prog.func("JointExcessDegree.get_ejk")
